@@ -95,9 +95,10 @@ class RealFs(RealVolumeOf, Fs):
             os.rename(path, dest)
         except OSError as e:
             # copy + delete only helps across file systems; for any other
-            # error (EBUSY for a mount point, EACCES, ...) it would copy the
-            # entry into the trash and then fail while deleting the original
-            if e.errno != errno.EXDEV:
+            # error (EBUSY for a mount point, EACCES, ...), and for a mount
+            # point in any case, it would copy the entry into the trash and
+            # then fail while deleting the original
+            if e.errno != errno.EXDEV or os.path.ismount(path):
                 raise
             return fs.move(path, dest)
 
